@@ -5,7 +5,7 @@ UNITS = ["FactorNames = {}", "Powers = {}", "MaxFactors = 0", "Mags = {}", "Targ
          "HelperNames = {}", "Plan <- NoPlan"]
 BASE = dict(Systems="<- Sys_q", KTimes="<- KT_two", KConcs="<- KC_two", Wrongs="<- W_none", CPlans="<- Plans_two",
             TUnits='= {"s"}', KRegs="<- KRegs6", Outs="<- Outs_one", Modes='= {"inline", "named"}',
-            EqTemplates="= {}", EqWrongs="= {}", CallKinds="<- Calls_none", MaxCalls="= 0", Laws='= {"mass"}')
+            EqTemplates="= {}", EqWrongs="= {}", CallKinds="<- Calls_none", MaxCalls="= 0", Laws='= {"mass"}', TSources='= {"param"}')
 INV = ["RegistryIndependent", "WrittenIsPhysical", "RefusedOnlyIfWrongDimension", "SolverHasNoMemory",
        "SolverRefusesExactlyWrongDimensions", "KTypeOK", "KEmit"]
 def cfg(name, **kw):
@@ -18,9 +18,11 @@ cfg("accept", Systems="= {}", KTimes="<- KT_all", KConcs="<- KC_all", Wrongs="<-
 cfg("refuse", Systems="<- Sys_q", KTimes="<- KT_two", KConcs="<- KC_all", Wrongs='= {"conc-", "time2"}')
 cfg("rates_q", Modes='= {"inline", "named", "mixed"}')
 cfg("laws_q", Systems='= {"bi", "chain", "ter"}', KTimes='= {"min"}', KConcs='= {"mM"}', CPlans='= {2}', Laws='= {"arrhenius", "eyring", "alt"}',
-    Modes='= {"inline", "named", "subs"}', KRegs="<- KRegs6")
-cfg("laws_t", Systems="<- Sys_laws", KTimes="<- KT_two", KConcs="<- KC_two", CPlans="<- Plans_two", Laws='= {"arrhenius", "eyring", "alt"}',
+    Modes='= {"inline", "named", "subs"}', KRegs="<- KRegs6", TSources='= {"param", "subs", "ramp"}', Outs="<- Outs_q")
+cfg("rad_q", Systems='= {"zero", "feed", "zero2"}', KTimes='= {"min", "h"}', KConcs='= {"mM", "M"}', CPlans='= {0, 1, 2}', Laws='= {"rad"}',
     Modes='= {"inline", "named", "subs", "mixed"}', KRegs="<- KRegs6")
+cfg("laws_t", Systems="<- Sys_laws", KTimes="<- KT_two", KConcs="<- KC_two", CPlans="<- Plans_two", Laws='= {"arrhenius", "eyring", "alt"}',
+    Modes='= {"inline", "named", "subs", "mixed"}', KRegs="<- KRegs6", TSources='= {"param", "subs", "ramp"}', Outs="<- Outs_three")
 cfg("subs_t", Modes='= {"subs", "mixed"}')
 cfg("rates_t", Systems="<- Sys_all", KTimes="<- KT_all", KConcs="<- KC_all", CPlans="<- Plans_two", TUnits='= {"s"}',
     KRegs="<- KRegs6", Outs="<- Outs_one")
